@@ -142,17 +142,47 @@ def short(path):
     return '::'.join(parts[-2:]) if len(parts) > 1 else p
 
 
+LEAF_TAGS = ('param', 'var', 'const', 'sym', 'fn', 'unknown')
+
+
+def map_children(t, f):
+    """rebuild term t with f applied to every direct child term (tag-aware)"""
+    k = t[0]
+    if k in LEAF_TAGS:
+        return t
+    if k == 'call':
+        return ('call', t[1], tuple(f(a) for a in t[2]), t[3] if len(t) > 3 else ())
+    if k == 'agg':
+        return ('agg', t[1], t[2], tuple(f(a) for a in t[3]))
+    if k == 'cast':
+        return ('cast', t[1], f(t[2]), t[3] if len(t) > 3 else None)
+    out = [k]
+    for x in t[1:]:
+        if isinstance(x, tuple) and x and isinstance(x[0], str):
+            out.append(f(x))
+        else:
+            out.append(x)
+    return tuple(out)
+
+
+def children(t):
+    k = t[0]
+    if k in LEAF_TAGS:
+        return []
+    if k == 'call':
+        return list(t[2])
+    if k == 'agg':
+        return list(t[3])
+    if k == 'cast':
+        return [t[2]]
+    return [x for x in t[1:] if isinstance(x, tuple) and x and isinstance(x[0], str)]
+
+
 def subterms(t):
     yield t
-    if isinstance(t, tuple):
-        for x in t[1:]:
-            if isinstance(x, tuple):
-                if x and isinstance(x[0], str):
-                    yield from subterms(x)
-                else:
-                    for y in x:
-                        if isinstance(y, tuple):
-                            yield from subterms(y)
+    if isinstance(t, tuple) and t:
+        for c in children(t):
+            yield from subterms(c)
 
 
 def strip_casts(t):
@@ -163,21 +193,15 @@ def strip_casts(t):
 
 
 def deep_strip(t):
-    if not isinstance(t, tuple):
+    """remove all casts inside a term; normalise deref(ref(x)) -> x"""
+    if not isinstance(t, tuple) or not t:
         return t
     if t[0] == 'cast':
         return deep_strip(t[2])
-    if t[0] in ('param', 'var', 'const', 'sym', 'fn', 'unknown'):
-        return t
-    out = [t[0]]
-    for x in t[1:]:
-        if isinstance(x, tuple) and x and isinstance(x[0], str):
-            out.append(deep_strip(x))
-        elif isinstance(x, tuple):
-            out.append(tuple(deep_strip(y) if isinstance(y, tuple) else y for y in x))
-        else:
-            out.append(x)
-    return tuple(out)
+    r = map_children(t, deep_strip)
+    if r[0] == 'deref' and isinstance(r[1], tuple) and r[1][0] == 'ref':
+        return r[1][1]
+    return r
 
 
 # ----------------------------------------------------------------------------- bodies
